@@ -33,6 +33,17 @@ func (h *harness) checkParse(c *codec, in []byte, w *worker) {
 					fmt.Sprintf("func TestReplay(t *testing.T) { if got := strz.%sParseToString(%q); got != %q { t.Fatalf(\"got %%q\", got) } }", c.name, in, in)
 			})
 		}
+	case clJunk:
+		if suf, ok := c.junkTail(w.want[:0], in); ok {
+			w.want = suf
+			if !bytes.HasSuffix(out, suf) {
+				h.viol(c.name+"Parse|wrong-decode|well-formed-escapes-after-an-ill-formed-one", string(in), func() (string, any, string) {
+					return fmt.Sprintf("%sParse(%q) = %q, want an output that ends with %q: the well-formed escapes between backslash-free text after the last ill-formed sequence must still be decoded and the text around them kept", c.name, in, out, suf),
+						map[string]any{"codec": c.name, "input": fmt.Sprintf("%q", in)},
+						fmt.Sprintf("func TestReplay(t *testing.T) { if got := strz.%sParseToString(%q); !strings.HasSuffix(got, %q) { t.Fatalf(\"got %%q\", got) } }", c.name, in, suf)
+				})
+			}
+		}
 	case clEmbedded, clFormatOutput:
 		if !bytes.Equal(out, res) {
 			h.viol(c.name+"Parse|wrong-decode|"+className[class], string(in), func() (string, any, string) {
